@@ -404,6 +404,48 @@ fn avk_orders() -> String {
         });
         out.push(format!("overflowing_total={}", r));
     }
+    // stakes at the edges: a zero-stake party, stakes that differ by multiples of 2^32, stakes above 2^63 — the closed registration,
+    // the leaves and the entry-for-index lookup must all reflect the registered values
+    {
+        let avk_of = |stakes: &[u64]| -> (String, Result<String, String>) {
+            let mut rng3 = ChaCha20Rng::from_seed([9u8; 32]);
+            let p3 = Parameters { m: 3, k: 1, phi_f: 1.0 };
+            let mut key_reg = KeyRegistration::initialize();
+            let mut ps = Vec::new();
+            for st in stakes.iter() {
+                let p = Initializer::new(p3, *st, &mut rng3);
+                let entry = RegistrationEntry::new(p.get_verification_key_proof_of_possession_for_concatenation(), p.stake).unwrap();
+                key_reg.register_by_entry(&entry).unwrap();
+                ps.push(p);
+            }
+            let closed = match key_reg.close_registration(&p3) { Ok(c) => c, Err(e) => return (format!("close failed: {}", e), Err("close failed".to_string())) };
+            let signers: Vec<Signer<D>> = ps.into_iter().filter_map(|p| p.try_create_signer(&closed).ok()).collect();
+            let clerk = Clerk::new_clerk_from_signer(&signers[0]);
+            let avk_full = clerk.compute_aggregate_verification_key();
+            let avk_c = avk_full.to_concatenation_aggregate_verification_key();
+            // the Merkle root alone (the total stake is serialised next to it and would hide equal roots)
+            let avk = serde_json::to_value(&avk_c).map(|v| v["mt_commitment"]["root"].to_string()).unwrap_or_else(|_| format!("{:?}", avk_c.to_bytes().unwrap()));
+            // every party with stake signs index 0,1,2 in turn; with phi_f = 1 every honest signature must aggregate and verify
+            let msg = b"edge-stakes".to_vec();
+            let mut verdicts = Vec::new();
+            for (i, s) in signers.iter().enumerate() {
+                if let Ok(sig) = s.create_single_signature(&msg) {
+                    let one = with_indexes(&sig, &[(i % 3) as u64]);
+                    verdicts.push(aggregate_and_verify(&clerk, &[one], &msg, &p3));
+                }
+            }
+            let all_ok = verdicts.iter().all(|v| v == "accepted");
+            (avk, if all_ok { Ok("accepted".to_string()) } else { Err(format!("{:?}", verdicts)) })
+        };
+        let mut bad = Vec::new();
+        for stakes in [vec![0u64, 3, 5], vec![3, 0, 5, 8], vec![5, (1u64 << 33) + 7, 1u64 << 34], vec![(1u64 << 63) + 5, 9]] {
+            if let (_, Err(e)) = avk_of(&stakes) { bad.push(format!("honest signatures under stakes {:?}: {}", stakes, e.chars().take(60).collect::<String>())); }
+        }
+        for (a, b) in [(vec![5u64, (1u64 << 33) + 7, 1u64 << 34], vec![(1u64 << 32) + 5, (1u64 << 32) + 7, 1u64 << 34]), (vec![(1u64 << 63) + 5, 9], vec![(1u64 << 63) + 6, 9])] {
+            if avk_of(&a).0 == avk_of(&b).0 { bad.push(format!("stakes {:?} and {:?} give the same aggregate key", a, b)); }
+        }
+        out.push(format!("edge_stakes={}", if bad.is_empty() { "ok".to_string() } else { format!("VIOLATED {}", bad.join("; ")) }));
+    }
     // the key order must tell a key from its negation (same x coordinate, only the sign flag of the encoding differs)
     {
         use mithril_stm::VerificationKeyForConcatenation as Vk;
